@@ -24,16 +24,18 @@ var muxPairs = [][2]string{
 }
 
 var codecFamily = map[string][2]string{ // callee -> (family, role)
-	"encoding/binary.PutUvarint":            {"uvarint", "enc"},
-	"encoding/binary.Uvarint":               {"uvarint", "dec"},
-	"encoding/binary.PutVarint":             {"varint", "enc"},
-	"encoding/binary.Varint":                {"varint", "dec"},
-	"(encoding/binary.bigEndian).PutUint16": {"be16", "enc"},
-	"(encoding/binary.bigEndian).Uint16":    {"be16", "dec"},
-	"(encoding/binary.bigEndian).PutUint32": {"be32", "enc"},
-	"(encoding/binary.bigEndian).Uint32":    {"be32", "dec"},
-	"(encoding/binary.bigEndian).PutUint64": {"be64", "enc"},
-	"(encoding/binary.bigEndian).Uint64":    {"be64", "dec"},
+	"encoding/binary.PutUvarint":               {"uvarint", "enc"},
+	"encoding/binary.AppendUvarint":            {"uvarint", "enc"},
+	"encoding/binary.AppendVarint":             {"varint", "enc"},
+	"encoding/binary.Uvarint":                  {"uvarint", "dec"},
+	"encoding/binary.PutVarint":                {"varint", "enc"},
+	"encoding/binary.Varint":                   {"varint", "dec"},
+	"(encoding/binary.bigEndian).PutUint16":    {"be16", "enc"},
+	"(encoding/binary.bigEndian).Uint16":       {"be16", "dec"},
+	"(encoding/binary.bigEndian).PutUint32":    {"be32", "enc"},
+	"(encoding/binary.bigEndian).Uint32":       {"be32", "dec"},
+	"(encoding/binary.bigEndian).PutUint64":    {"be64", "enc"},
+	"(encoding/binary.bigEndian).Uint64":       {"be64", "dec"},
 	"(encoding/binary.littleEndian).PutUint16": {"le16", "enc"},
 	"(encoding/binary.littleEndian).Uint16":    {"le16", "dec"},
 	"(encoding/binary.littleEndian).PutUint32": {"le32", "enc"},
@@ -374,6 +376,10 @@ func c15(r *core.Report) {
 				if s, ok := in.(*ssa.Slice); ok && s.High != nil && s.High == ssa.Value(enc) {
 					hdrOK = true
 				}
+			}
+			// the Append* encoders return the header already cut to length
+			if strings.Contains(core.CalleeName(enc.Common()), ".Append") && isByteSliceT(enc.Type()) {
+				hdrOK = true
 			}
 			r.Check(hdrOK, "C15-PAIR", c+" header length", p.Pos(mf.Pos()), "the header is cut at the length the encoder reports", "the header is not cut at the encoder's reported length")
 			bodyOK := false
